@@ -90,10 +90,30 @@ def gen_td(rng, kind):
     if kind == "njt":
         nt = torch.nested.nested_tensor([torch.arange(3.0), torch.arange(5.0)][: b[0]] + [torch.arange(2.0)] * max(0, b[0] - 2), layout=torch.jagged)
         td = TensorDict({"a": mk_tensor(rng, torch.int32, [b[0], 2], 1), "j": nt}, batch_size=[b[0]], device=device)
+    if kind == "njt2":
+        # several jagged nested tensors in one node, some non-contiguous (built with `lengths=`: holes between the
+        # components), in either order, next to plain leaves
+        n = b[0]
+        d = {"a": mk_tensor(rng, torch.int32, [n, 2], 1)}
+        keys = ["h", "p", "q"]
+        rng.shuffle(keys)
+        for i, k in enumerate(keys[: rng.randint(2, 3)]):
+            gaps = [rng.randint(2, 5) for _ in range(n)]
+            off = torch.tensor([0] + [sum(gaps[: j + 1]) for j in range(n)])
+            values = (torch.arange(int(off[-1]) * 2, dtype=torch.float32) + 100 * (i + 1)).view(-1, 2)
+            kw = {"lengths": torch.tensor([rng.randint(1, g) for g in gaps])} if (i == 0 or rng.random() < 0.4) else {}
+            d[k] = torch.nested.nested_tensor_from_jagged(values, offsets=off, **kw)
+        td = TensorDict(d, batch_size=[n], device=device)
+    if kind == "lazy12":
+        # more members than one decimal digit counts
+        n = rng.randint(11, 14)
+        members = [TensorDict({"a": leaf(i, [2], torch.float32) + 100 * i, "b": torch.full(b[1:], i, dtype=torch.int64), "s": f"member-{i}"},
+                              batch_size=b[1:], device=device) for i in range(n)]
+        td = LazyStackedTensorDict(*members, stack_dim=0)
     return td
 
 
-KINDS = ["plain", "nested", "nested-batch", "mixed", "empty-node", "nontensor", "nontensor-num", "nontensor-stack", "noncontig", "zero", "flat1d", "lazy", "tensorclass", "njt"]
+KINDS = ["plain", "nested", "nested-batch", "mixed", "empty-node", "nontensor", "nontensor-num", "nontensor-stack", "noncontig", "zero", "flat1d", "lazy", "tensorclass", "njt", "njt2", "lazy12"]
 
 
 def trips(td, scratch, rng):
@@ -153,6 +173,10 @@ def applicable(name, kind, td):
         # numpy has no bfloat16 / structured arrays need plain tensors
         # structured arrays: one scalar field per entry, 1-d batch (the documented use)
         return kind == "flat1d"
+    if kind == "njt2":
+        kind = "njt"
+    if kind == "lazy12":
+        kind = "lazy"
     if name == "namedtuple" and kind in ("lazy", "tensorclass", "njt", "nontensor-stack"):
         return False
     if name.startswith("consolidate(file over") and kind in ("tensorclass", "njt"):
